@@ -7,9 +7,10 @@ From DS Require Import Base.Prelude Model.MsvTypes Model.MsvModel Model.MsvFloat
 
 Inductive mop := MOp (tick now : Z) (draws spl : list Z) (ptok : bool) (bytes : list Z)
                      (obs : list (Z * list Z))    (* (index of the byte, reply) ; reply [-1] = exception *)
-| MRefresh (tick now : Z) (spls : list (list Z)).
+| MRefresh (tick now : Z) (spls : list (list Z)) (exc : bool).   (* exc: System._update raised *)
 Inductive msv := MSv (mode future : Z) (coords cmd offs : list Z) (last : Z) (timer : option (Z * Z))
-                     (alias : bool).
+                     (alias : bool)
+                     (tid : option Z) (tstart : option Z) (tpid : option Z) (times : list Z) (pt : bool).
 Inductive msnap := MSnap (msg : list Z) (conf gcap : Z) (cover : option (Z * Z)) (last : option Z)
                          (servos : list msv).
 Inductive mcase := MCase (timer_ticks : Z) (floats ints : list (list Z * option Z))
@@ -27,18 +28,55 @@ Definition mk_orc (floats ints : list (list Z * option Z)) (fmt : list (Z * list
     (fun tok => match assoc tok ints with Some r => r | None => None end)
     (fun x => fmt_lookup x fmt).
 
+(* the servo a byte completing a `STATUS=<servo>` line queries *)
+Definition status_target (cf : cfg F) (s : sys F) (b : Z) : option (sconf F * servo F) :=
+  let m := s_msg s ++ [b] in
+  if ends_crlf m then
+    match tokens m with
+    | [c; sid] =>
+        match assoc c (c_commands cf) with
+        | Some h => if zlist_eqb h [95; 115; 116; 97; 116; 117; 115]
+                    then match find_servo sid 0 (c_servos cf) with
+                         | Some (i, sc) => option_map (fun sv => (sc, sv)) (nth_error (s_servos s) i)
+                         | None => None
+                         end
+                    else None
+        | None => None
+        end
+    | _ => None
+    end
+  else None.
+
+Definition nonempty {A} (l : list A) : bool := match l with [] => false | _ => true end.
+
+(* returns the world, the non-True outcomes, and whether the recorded splev calls agree with the
+   model's decision to call splev (harness contract: the spline values are oracle inputs) *)
 Fixpoint feed (cf : cfg F) (orc : oracles F) (w : world F) (i : Z) (bs : list Z)
-  : world F * list (Z * list Z) :=
+  : world F * list (Z * list Z) * bool :=
   match bs with
-  | [] => (w, [])
+  | [] => (w, [], true)
   | b :: r =>
+      let agree := match status_target cf (snd w) b with
+                   | Some (sc, sv) => Bool.eqb (gs_tracks fops (fst w) sv) (nonempty (e_spl (fst w)))
+                   | None => negb (nonempty (e_spl (fst w))) || negb (ends_crlf (s_msg (snd w) ++ [b]))
+                   end in
       let '(w1, o) := step fops orc cf w (EvByte b) in
-      let '(w2, os) := feed cf orc w1 (i + 1) r in
+      let '(w2, os, ag) := feed cf orc w1 (i + 1) r in
       match o with
-      | OTrue => (w2, os)
-      | OReply t => (w2, (i, t) :: os)
-      | OExc => (w2, (i, [-1]) :: os)
+      | OTrue => (w2, os, agree && ag)
+      | OReply t => (w2, (i, t) :: os, agree && ag)
+      | OExc => (w2, (i, [-1]) :: os, agree && ag)
       end
+  end.
+
+(* refresh: servo by servo, the recorded splev calls agree with the model (up to the first raise) *)
+Fixpoint refresh_agree (e : env F) (svs : list (servo F)) (spls : list (list F)) : bool :=
+  match svs with
+  | [] => true
+  | sv :: r =>
+      let e' := mk_env (e_tick e) (e_now e) [] (hd [] spls) false in
+      Bool.eqb (gs_tracks fops e' sv) (nonempty (hd [] spls)) &&
+      (gs_raises sv || refresh_agree e r (tl spls))
   end.
 
 Definition obs_eqb (a b : list (Z * list Z)) : bool :=
@@ -50,13 +88,16 @@ Fixpoint run_ops (cf : cfg F) (orc : oracles F) (w : world F) (ops : list mop) :
   | MOp tick now draws spl ptok bytes obs :: r =>
       let e := mk_env tick (f_of_bits now) (map f_of_bits draws) (map f_of_bits spl) ptok in
       let '(w1, _) := step fops orc cf w (EvEnv e) in
-      let '(w2, os) := feed cf orc w1 0 bytes in
-      if obs_eqb os obs then run_ops cf orc w2 r else (w2, false)
-  | MRefresh tick now spls :: r =>
+      let '(w2, os, ag) := feed cf orc w1 0 bytes in
+      if obs_eqb os obs && ag then run_ops cf orc w2 r else (w2, false)
+  | MRefresh tick now spls exc :: r =>
       let e := mk_env tick (f_of_bits now) [] [] false in
       let '(w1, _) := step fops orc cf w (EvEnv e) in
-      let '(w2, _) := step fops orc cf w1 (EvRefresh (map (map f_of_bits) spls)) in
-      run_ops cf orc w2 r
+      let fspls := map (map f_of_bits) spls in
+      let ag := refresh_agree e (s_servos (snd w1)) fspls in
+      let '(w2, _) := step fops orc cf w1 (EvRefresh fspls) in
+      if ag && Bool.eqb (snd (refresh fops cf e fspls (snd w1))) exc then run_ops cf orc w2 r
+      else (w2, false)
   end.
 
 Fixpoint list_eqb2 {A B} (eqb : A -> B -> bool) (l1 : list A) (l2 : list B) : bool :=
@@ -73,8 +114,11 @@ Definition timer_eqb (a b : option (Z * Z)) : bool :=
 
 Definition sv_same (sv : servo F) (m : msv) : bool :=
   match m with
-  | MSv mode future coords cmd offs last timer alias =>
-      (sv_mode sv =? mode) && (sv_future sv =? future) && flist_same (sv_coords sv) coords
+  | MSv mode future coords cmd offs last timer alias tid tstart tpid times pt =>
+      option_eqb Z.eqb (tk_id (sv_trk sv)) tid && option_eqb f_same (tk_start (sv_trk sv)) (option_map f_of_bits tstart)
+      && option_eqb Z.eqb (tk_pid (sv_trk sv)) tpid && flist_same (tk_times (sv_trk sv)) times
+      && Bool.eqb (tk_pt (sv_trk sv)) pt
+      && (sv_mode sv =? mode) && (sv_future sv =? future) && flist_same (sv_coords sv) coords
       && flist_same (sv_cmd sv) cmd && flist_same (sv_offs sv) offs && f_same (sv_last sv) (f_of_bits last)
       && timer_eqb (sv_timer sv) timer && Bool.eqb (sv_alias sv) alias
   end.
@@ -106,9 +150,9 @@ Fixpoint run_show (cf : cfg F) (orc : oracles F) (w : world F) (ops : list mop)
   | MOp tick now draws spl ptok bytes obs :: r =>
       let e := mk_env tick (f_of_bits now) (map f_of_bits draws) (map f_of_bits spl) ptok in
       let '(w1, _) := step fops orc cf w (EvEnv e) in
-      let '(w2, os) := feed cf orc w1 0 bytes in
-      os :: run_show cf orc w2 r
-  | MRefresh tick now spls :: r =>
+      let '(w2, os, ag) := feed cf orc w1 0 bytes in
+      (if ag then os else (-2, []) :: os) :: run_show cf orc w2 r
+  | MRefresh tick now spls exc :: r =>
       let e := mk_env tick (f_of_bits now) [] [] false in
       let '(w1, _) := step fops orc cf w (EvEnv e) in
       let '(w2, _) := step fops orc cf w1 (EvRefresh (map (map f_of_bits) spls)) in
